@@ -258,6 +258,87 @@ func c14(c *ev.Ctx) {
 			}
 		}
 	})
+	// (2c) generated regexps (groups of every kind - also as the very first item -, classes,
+	// repetition, alternation) against generated subjects; Go's regexp package is the oracle
+	n = c.Pick(1500, 60000)
+	c.ParFor(n, func(i int) {
+		id := fmt.Sprintf("regen/%d", i)
+		if !c.Want(id) {
+			return
+		}
+		r := c.Rng("regen", i)
+		var gen func(d int) string
+		atom := func(d int) string {
+			switch k := r.Intn(14); {
+			case k < 5:
+				return []string{"a", "b", "aa", "ab", "1", "o", "foo", "bar"}[r.Intn(8)]
+			case k == 5:
+				return "."
+			case k == 6:
+				return []string{"[ab]", "[^a]", "[0-9]", "\\d", "\\w", "\\s"}[r.Intn(6)]
+			case k == 7:
+				return []string{"^", "$", "\\b"}[r.Intn(3)]
+			case d <= 0:
+				return "b"
+			case k == 8:
+				return "(" + gen(d-1) + ")"
+			case k == 9 || k == 10:
+				return "(?:" + gen(d-1) + ")"
+			case k == 11:
+				return "(?P<" + []string{"n", "nn", "aba"}[r.Intn(3)] + ">" + gen(d-1) + ")"
+			case k == 12:
+				return "(?" + []string{"i", "s", "is", "U", "i-s", "m"}[r.Intn(6)] + ":" + gen(d-1) + ")"
+			}
+			return "(?" + []string{"i", "s", "m", "im"}[r.Intn(4)] + ")" + gen(d-1)
+		}
+		gen = func(d int) string {
+			var b strings.Builder
+			for k := 0; k < 1+r.Intn(3); k++ {
+				if k > 0 && r.Intn(4) == 0 {
+					b.WriteString("|")
+				}
+				b.WriteString(atom(d))
+				if r.Intn(3) == 0 {
+					b.WriteString([]string{"*", "+", "?", "{2}", "{1,2}", "+?"}[r.Intn(6)])
+				}
+			}
+			return b.String()
+		}
+		pat := gen(2)
+		flags := []string{"", "", "i", "m", "im"}[r.Intn(5)]
+		goPat := pat
+		if flags != "" {
+			goPat = "(?" + flags + ")" + pat
+		}
+		re, err := regexp.Compile(goPat)
+		if err != nil {
+			return
+		}
+		lit := gast.EncodeRegex(pat, flags)
+		alphabet := []string{"a", "b", "A", "1", "o", "f", "r", " ", "foo", "bar", "ab"}
+		var parts, wants []string
+		for q := 0; q < 6; q++ {
+			var sb strings.Builder
+			for k := 0; k < r.Intn(6); k++ {
+				sb.WriteString(alphabet[r.Intn(len(alphabet))])
+			}
+			subj := strings.TrimSpace(sb.String())
+			parts = append(parts, gast.EncodeString(subj, '"', nil)+" ~= "+lit)
+			wants = append(wants, fmt.Sprint(re.MatchString(subj)))
+		}
+		script := "return [" + strings.Join(parts, ", ") + "];"
+		evr, err := eng.New(script, eng.Options{NoHook: true, NoOptimize: r.Intn(2) == 0})
+		c.Case(script, true)
+		got := "rejected"
+		if err == nil {
+			got = evr.Exec(nil).Desc()
+		} else {
+			got = "rejected: " + err.Error()
+		}
+		if want := "ARRAY:[" + strings.Join(wants, ", ") + "]"; got != want {
+			c.Violation(id, "meaning of a generated regexp literal", map[string]interface{}{"summary": fmt.Sprintf("%s gives %s, Go's regexp for %q says %s", script, got, goPat, want), "script": script})
+		}
+	})
 	// (3) numbers
 	n = c.Pick(3000, 100000)
 	c.ParFor(n, func(i int) {
